@@ -104,6 +104,17 @@ INPUTS: dict[str, tuple[dict[str, str], str]] = {
         },
         "pk",
     ),
+    "T11-class-used-in-own-module-and-elsewhere": (
+        {
+            "pk/__init__.py": "",
+            "pk/aaa.py": "from pk.shapes import Shape\n\n\ndef early(s: Shape) -> None:\n    ...\n",
+            "pk/shapes.py": "class Shape:\n    def clone(self) -> 'Shape':\n        return self\n\n\ndef make() -> Shape:\n    return Shape()\n\n\nclass Square(Shape):\n    def side(self, other: Shape) -> int:\n        return 1\n",
+            "pk/draw.py": "from pk.shapes import Shape, Square\n\n\ndef draw(s: Shape, q: Square) -> Shape:\n    return s\n",
+            "pk/zoo/__init__.py": "",
+            "pk/zoo/pen.py": "from pk.shapes import Shape\n\n\nclass Pen:\n    def use(self, s: Shape) -> None:\n        ...\n",
+        },
+        "pk",
+    ),
     "T9-directory-order": (
         {
             "pk/__init__.py": "from .zz.b import Bz\nfrom .aa.a import Az\n",
